@@ -27,6 +27,11 @@ inductive Guard where
   | nec (i : Nat) (f : Fld) (c : Int)             -- in[n+i].f != c
   deriving Repr, DecidableEq
 
+/-- one test of the if / else-if chain that resolves a plain identifier (compiler.go `case "(name)"`) -/
+inductive ResolveStep where
+  | dollar | localType | local | global | builtin | unknown
+  deriving Repr, DecidableEq
+
 /-- one `case` of the peephole `switch`: window pattern, guards, output -/
 structure Rule where
   lhs : List String
